@@ -1116,6 +1116,9 @@ class Interp:
             if op == "|":
                 return set(L) | set(only_r)
             return {a for a in L if not any(eq(a, b) for b in R)} | set(only_r)
+        if op == "+" and inplace and type(l).__name__ == "Deque" and isinstance(r, (list, tuple)):
+            l.extend(r)
+            return l
         if op == "+" and type(l) is list and type(r) is list:
             if inplace:
                 l.extend(r)          # `xs += ys` mutates xs (aliases see it)
